@@ -29,6 +29,9 @@ def make_spec(seed, cfg):
     spec = ga.gen(rng, dim=cfg['dim'], conv_head=True, bn=not cfg.get('integer'), k1d=[1, 2, 3, 3, 4, 5, 6, 7, 9])
     if cfg.get('multi'):
         spec = add_second_input(spec)
+    if cfg.get('twice'):
+        spec, al = add_second_call_site(spec, rng)
+        spec['aliases'] = al
     return spec
 
 
@@ -52,6 +55,51 @@ def add_second_input(spec):
     spec['out'] = [j + 2 for j in spec['out']]
     spec['productions'] = list(spec.get('productions', [])) + ['second-input']
     return spec
+
+
+def add_second_call_site(spec, rng):
+    """a conv(+BatchNorm) pair INVOKED AT TWO CALL SITES: after a conv c (and the BatchNorm b that follows it, if any) two
+    nodes c2, b2 that read the same input are inserted, then add(b, b2); every later reader of b reads the sum.
+    After build() the modules of c2 / b2 are replaced by the very objects of c / b (see alias_call_sites).
+    -> (spec, [(alias node, original node)])  or (spec, []) when the network has no suitable pair"""
+    nodes = spec['nodes']
+    bnf = bn_followers(spec)
+    cands = [c for c, nd in enumerate(nodes) if nd['k'] in ('conv1d', 'conv2d') and n_users(spec, c) == 1 and (c not in bnf or n_users(spec, bnf[c]) >= 1)]
+    withbn = [c for c in cands if c in bnf and bnf[c] == c + 1]
+    pool = withbn if withbn and rng.random() < 0.8 else [c for c in cands if c not in bnf]
+    if not pool:
+        pool = withbn
+    if not pool:
+        return spec, []
+    c = rng.choice(pool)
+    last = bnf[c] if c in bnf else c           # the node whose value is doubled
+    ins = [dict(nodes[c])] + ([dict(nodes[last], src=last + 1)] if last != c else [])
+    k = len(ins) + 1                            # inserted nodes: c2 [, b2], add
+    c2 = last + 1
+    b2 = c2 + 1 if last != c else None
+    addn = {'k': 'add', 'src': [last, c2 + len(ins) - 1]}
+
+    def sh(j):
+        return j if j <= last else j + k
+    new = []
+    for j, nd in enumerate(nodes):
+        nd = dict(nd)
+        if j > last and 'src' in nd:
+            if isinstance(nd['src'], int):
+                nd['src'] = last + k if nd['src'] == last else sh(nd['src'])
+            else:
+                nd['src'] = [last + k if q == last else sh(q) for q in nd['src']]
+        new.append(nd)
+        if j == last:
+            new.extend(ins + [addn])
+    spec = dict(spec, nodes=new, out=[last + k if q == last else sh(q) for q in spec['out']],
+                productions=list(spec.get('productions', [])) + ['second-call-site' + ('-with-bn' if last != c else '')])
+    return spec, [(c2, c)] + ([(b2, last)] if b2 is not None else [])
+
+
+def alias_call_sites(m, aliases):
+    for a, orig in aliases:
+        m.layers['n%d' % a] = m.layers['n%d' % orig]
 
 
 def bn_followers(spec):
@@ -120,7 +168,8 @@ def place_supernet(torch, m, spec, rng, g):
     import torch.nn as nn
     from plinio.methods.supernet import SuperNetModule
     done = []
-    cands = [i for i, nd in enumerate(spec['nodes']) if nd['k'] in ('conv1d', 'conv2d') and nd['stride'] == 1]
+    shared = {j for pair in spec.get('aliases', []) for j in pair}      # a layer invoked at two call sites is not made a branch
+    cands = [i for i, nd in enumerate(spec['nodes']) if nd['k'] in ('conv1d', 'conv2d') and nd['stride'] == 1 and i not in shared]
     rng.shuffle(cands)
     for i in cands[:rng.randint(1, 3)]:
         nd = spec['nodes'][i]
@@ -405,6 +454,8 @@ def run_case(torch, seed, cfg):
         o['productions'] = spec.get('productions', [])
         integer = bool(cfg.get('integer'))
         m = ga.build(spec, seed=seed, integer=integer, dtype=torch.float64)
+        alias_call_sites(m, spec.get('aliases', []))
+        o['aliases'] = spec.get('aliases', [])
         xs = ga.example_input(spec, torch, seed, integer=integer, dtype=torch.float64)
         rng = random.Random(seed * 7 + 1)
         g = torch.Generator().manual_seed(seed + 5)
@@ -412,8 +463,9 @@ def run_case(torch, seed, cfg):
             o['tbranch'] = add_training_branch(torch, m, spec, cfg['tbranch'], rng)
             m = m.to(torch.float64)
         method = cfg['method']
-        convs = [i for i, nd in enumerate(spec['nodes']) if nd['k'] in CONVS]
-        bnf = bn_followers(spec)
+        alias_idx = {a for a, _ in spec.get('aliases', [])}
+        convs = [i for i, nd in enumerate(spec['nodes']) if nd['k'] in CONVS and i not in alias_idx]
+        bnf = {c: b for c, b in bn_followers(spec).items() if c not in alias_idx}
         placed = []
         if method == 'pit' and cfg.get('userpit', 'none') != 'none':
             if cfg['userpit'] == 'all':
@@ -428,6 +480,7 @@ def run_case(torch, seed, cfg):
                     which = [rng.choice(convs)]
             ufold = cfg['fold'] if cfg.get('ufold', 'same') == 'same' else None
             placed = place_user_pit(torch, m, spec, sorted(which), ufold)
+            alias_call_sites(m, spec.get('aliases', []))        # a user-placed layer invoked at two call sites stays ONE object
         sn_blocks = []
         if method == 'sn':
             sn_blocks = place_supernet(torch, m, spec, rng, g)
@@ -641,6 +694,8 @@ def oracle(o):
     method = cfg['method']
     tol = 0.0 if cfg.get('integer') else TOL
     tag = method + ('' if method != 'pit' else (':auto' if cfg['auto'] else ':import') + (':userpit' if o['placed'] else '') + (':fold' if cfg['fold'] else ':nofold'))
+    if o.get('aliases') and method == 'pit':
+        tag = 'pit:two-call-sites' + (':fold' if cfg['fold'] else ':nofold')      # a conv(+BN) pair invoked at two call sites
     if method in ('pit', 'sn'):
         if not ob['d_wrapper'] <= tol:
             f.append(('wrapped-differs-from-original:' + tag, 'max |wrapped(x) - original(x)| = %r in eval mode' % ob['d_wrapper']))
